@@ -222,7 +222,8 @@ def cases(tier):
                     for fl in itertools.combinations(FLAGS, r):
                         for prio in ((0,) if quick else (0, -1)):
                             yield dict(files=files, lines=[(prio, list(fl), "exact", p.decode("latin1"))], cfg=base_cfgs[0])
-                            if r == 1 and not quick:
+                            if r == 1 or (r == 4 and not quick):
+                                # each flag together with --no-tail-packing: -T may only add dont_fragment behaviour for files larger than one block
                                 yield dict(files=files, lines=[(prio, list(fl), "exact", p.decode("latin1"))], cfg=base_cfgs[1])
         # C. pattern kinds and overlapping lines in both orders (first match wins)
         if len(paths) >= 2:
